@@ -1,8 +1,8 @@
 // f_fs.cpp — families "fs" (FilesystemHandler over a scratch tree, C07/C08) and "pathprobe" (QDir oracle)
 //   fs case ::= ( tree rootspelling path ((hname hvalue)..) [meta] )
-//     tree ::= ( (relpath kind content) .. )   relative to <BASE>; kind 0 file, 1 directory
-//     rootspelling: bytes with "<BASE>" replaced by the scratch directory; "<CWD>/x" = relative "x" with cwd = <BASE>
-//     path: the (server-decoded) path handed to the handler; "<BASE>" is replaced too
+//     tree ::= ( (relpath kind content) .. )   relative to @BASE@; kind 0 file, 1 directory
+//     rootspelling: bytes with "@BASE@" replaced by the scratch directory; "@CWD@/x" = relative "x" with cwd = @BASE@
+//     path: the (server-decoded) path handed to the handler; "@BASE@" is replaced too
 //   obs ::= ( status contentLength contentRange body closed )
 #include <QCoreApplication>
 #include <QDir>
@@ -38,10 +38,10 @@ static Val run_fs(const Val &c)
     QByteArray rootSpec = c.at(1).asBytes();
     QString oldCwd = QDir::currentPath();
     QString root;
-    if (rootSpec.startsWith("<CWD>/")) { QDir::setCurrent(base); root = QString::fromUtf8(rootSpec.mid(6)); }
-    else { rootSpec.replace("<BASE>", base.toUtf8()); root = QString::fromUtf8(rootSpec); }
+    if (rootSpec.startsWith("@CWD@/")) { QDir::setCurrent(base); root = QString::fromUtf8(rootSpec.mid(6)); }
+    else { rootSpec.replace("@BASE@", base.toUtf8()); root = QString::fromUtf8(rootSpec); }
     QByteArray pathB = c.at(2).asBytes();
-    pathB.replace("<BASE>", base.toUtf8());
+    pathB.replace("@BASE@", base.toUtf8());
     QString path = QString::fromUtf8(pathB);
 
     Val log = Val::List();
@@ -78,18 +78,21 @@ static Val run_fs(const Val &c)
         }
         body = wire.mid(idx + 4);
     }
-    body.replace(base.toUtf8(), "<BASE>");
+    // the scratch directory's name is symbolic in cases and observations: keep Content-Length consistent with that
+    int before = body.size();
+    body.replace(base.toUtf8(), "@BASE@");
+    if (body.size() != before && cl == QByteArray::number(before)) cl = QByteArray::number(body.size());
     return Val::List({Val::Int(status), Val::Bytes(cl), Val::Bytes(cr), Val::Bytes(body), Val::Bool(closed)});
 }
 
-// oracle: (root path) -> (absoluteFilePath relativeFilePath cleanPath(path) cleanPath(absolutePath(root)))  with <BASE> symbolic
+// oracle: (root path) -> (absoluteFilePath relativeFilePath cleanPath(path) cleanPath(absolutePath(root)))  with @BASE@ symbolic
 static Val run_pathprobe(const Val &c)
 {
     QByteArray base = "/hxbase/a/b";
-    QByteArray r = c.at(0).asBytes(); r.replace("<BASE>", base);
-    QByteArray p = c.at(1).asBytes(); p.replace("<BASE>", base);
+    QByteArray r = c.at(0).asBytes(); r.replace("@BASE@", base);
+    QByteArray p = c.at(1).asBytes(); p.replace("@BASE@", base);
     QDir d(QString::fromUtf8(r));
-    auto sym = [&base](QString s) { QByteArray x = s.toUtf8(); x.replace(base, "<BASE>"); return Val::Bytes(x); };
+    auto sym = [&base](QString s) { QByteArray x = s.toUtf8(); x.replace(base, "@BASE@"); return Val::Bytes(x); };
     return Val::List({sym(d.absoluteFilePath(QString::fromUtf8(p))), sym(d.relativeFilePath(QString::fromUtf8(p))),
                       sym(QDir::cleanPath(QString::fromUtf8(p))), sym(QDir::cleanPath(d.absolutePath()))});
 }
